@@ -37,6 +37,8 @@ def units(tier):
             for (j, o) in (pts if not q else pts[::max(1, len(pts) // 2)]):
                 rot += 1
                 us.append(dict(h="omp", stmt=name, form=form, slots=1, cont=[j, o], sym="sent" if rot % 2 else "mark", cost=2))
+                # two continuation lines with a blank / comment line between them
+                us.append(dict(h="omp", stmt=name, form=form, slots=1, cont=[j, o], three=("comment", "blank")[rot % 2], sym="mark" if rot % 2 else "sent", cost=3))
     return us
 
 
@@ -83,6 +85,12 @@ def omp(ctx):
             return
         cut = sp[j - 1][2]
         pieces = [stmt[:cut], stmt[cut:]]
+        if p.get("three"):
+            if j + 1 >= len(sp):
+                ctx.check(True, "not applicable")
+                return
+            cut2 = sp[j][2]
+            pieces = [stmt[:cut], stmt[cut:cut2], stmt[cut2:]]
     amp = "&"
     mark = "&"
     if len(pieces) > 1 and sym == "mark":
@@ -100,13 +108,20 @@ def omp(ctx):
                 out.append((sent1 if with_sentinel else "   ") + pieces[0])
             else:
                 out.append((sent1 if with_sentinel else "   ") + pieces[0] + " &")
-                out.append((sent1 if with_sentinel else "   ") + amp + pieces[1])
+                for k in range(1, len(pieces)):
+                    if k == 2:
+                        out.append("" if p.get("three") == "blank" else "  ! between")
+                    last = k == len(pieces) - 1
+                    out.append((sent1 if with_sentinel else "   ") + amp + pieces[k] + ("" if last else "&"))
         else:
             if len(pieces) == 1:
                 out.append((sent1 if with_sentinel else "      ") + pieces[0])
             else:
                 out.append((sent1 if with_sentinel else "      ") + pieces[0])
-                out.append(((s0 if sym == "sent" else "!") + "$   " if with_sentinel else "     ") + mark + pieces[1])
+                for k in range(1, len(pieces)):
+                    if k == 2:
+                        out.append("" if p.get("three") == "blank" else "C between")
+                    out.append(((s0 if sym == "sent" else "!") + "$   " if with_sentinel else "     ") + mark + pieces[k])
         return out
     def prog(kind):
         """kind: 'sent' (with sentinels), 'blank' (sentinel replaced by blanks), 'without' (statements removed)"""
